@@ -1,9 +1,9 @@
 ------------------------------ MODULE MC_Agg ------------------------------
 EXTENDS Agg, Json
-\* Libraries of valid transactions over <= 8 commitments each.  Blinding scalars are distinct powers
-\* of two and offsets multiples of 256 (or zero) so that no sum the code forms is the zero scalar
-\* unless the specification says so (LibrariesNonDegenerate); values balance by construction
-\* (OperandsValid).
+\* Libraries of valid transactions over <= 8 commitments each (L7: 16).  Blinding scalars are distinct
+\* powers of two and offsets multiples of 256 (or zero) so that no sum of COMMITMENTS the code forms is
+\* the point at infinity (LibrariesNonDegenerate); values balance by construction (OperandsValid).
+\* Offsets may cancel (L7): the zero offset is a value like any other.
 In(v, r) == [v |-> v, r |-> r]
 Out(v, r) == [v |-> v, r |-> r, cb |-> FALSE, pf |-> TRUE]
 K(kind, fee, x, sid) == TB!MkKernel(kind, fee, x, sid)
@@ -88,8 +88,32 @@ L6 == <<
   Tx1(<<fY, fV>>, <<OutPv(fX, 1)>>, "nrd", 1, 512, 33),
   Tx1(<<fX>>, <<OutPv(fZ, 0)>>, "plain", 1, 1024, 34) >>
 
+\* L7: seven independent transactions whose offsets cancel in every way: a and b carry o and -o (pair),
+\* b, c, d sum to zero (triple), e is a bystander with another offset (a group that cancels inside a
+\* family whose total does not: [[a, b], e] meets the zero sum on the way), g carries
+\* minus the previous header's total (the header total of the block of {g} is zero) and h brings
+\* {a, d, h} to it as well.  De-aggregating e from {a, b, e} leaves a remainder whose offset is zero,
+\* de-aggregating {a, b} from it has a known subset whose offset is zero.
+PrevC == 16384
+h(n) == In(2, n)
+L7 == <<
+  Tx1(<<h(1)>>,   <<O(In(1, 2))>>,    "plain", 1, 768, 51),                 \* a   o
+  Tx1(<<h(4)>>,   <<O(In(1, 8))>>,    "hl",    1, 0 - 768, 52),             \* b  -o
+  Tx1(<<h(16)>>,  <<O(In(1, 32))>>,   "nrd",   1, 256, 53),                 \* c   b + c + d = 0
+  Tx1(<<h(64)>>,  <<O(In(1, 128))>>,  "plain", 1, 512, 54),                 \* d
+  Tx2(<<h(256)>>, <<O(In(0, 512))>>,  "plain", 1, 7, "hl", 1, 1024, 55),    \* e   (two kernels)
+  Tx1(<<h(4096)>>, <<O(In(1, 32768))>>, "hl",  1, 0 - PrevC, 58),           \* g  -prev
+  Tx1(<<h(65536)>>, <<O(In(1, 131072))>>, "plain", 1, 0 - PrevC - 1280, 59) >>   \* h   a + d + h = -prev
+
+\* the representation of the inputs each library transaction is realised in: CommitOnly, FeaturesAndCommit
+\* with plain features, FeaturesAndCommit claiming coinbase features (the aggregate never shows it)
+IvOf(l, i) == <<"co", "fc", "fcb">>[1 + ((l + i) % 3)]
+WithIv(L, l) == [i \in 1..Len(L) |-> [ins |-> L[i].ins, outs |-> L[i].outs, off |-> L[i].off, kerns |-> L[i].kerns, iv |-> IvOf(l, i)]]
+\* quick tier: families of L7 hold at most three transactions (every form of cancelling offsets shows with three)
+MaxFamilyQ(l) == IF l = 7 THEN 3 ELSE MaxFamily
+MaxFamilyT(l) == IF l = 7 THEN 4 ELSE MaxFamily
 LibrariesC == <<L1, L2>>
-LibrariesT == <<L1, L2, L3, L4, L5, L6>>
+LibrariesT == <<WithIv(L1, 1), WithIv(L2, 2), WithIv(L3, 3), WithIv(L4, 4), WithIv(L5, 5), WithIv(L6, 6), WithIv(L7, 7)>>
 \* the shapes the libraries must exhibit with families of <= 4 (vacuity guard)
 WantedShapes == {"once", "chain", "recreate", "respend", "cycle", "dup_output", "double_spend",
                  "dup_output_after_cut", "double_spend_after_cut"}
@@ -99,37 +123,58 @@ RewardsC == << [out |-> [v |-> 0, r |-> 8192, cb |-> TRUE, pf |-> TRUE], kern |-
                [out |-> [v |-> 0, r |-> 8192, cb |-> TRUE, pf |-> TRUE], kern |-> K("cb", 0, 8192, 92)],
                [out |-> [v |-> 0, r |-> 8192, cb |-> TRUE, pf |-> TRUE], kern |-> K("cb", 0, 8192, 93)],
                [out |-> [v |-> 0, r |-> 8192, cb |-> TRUE, pf |-> TRUE], kern |-> K("cb", 0, 8192, 94)],
-               [out |-> [v |-> 0, r |-> 8192, cb |-> TRUE, pf |-> TRUE], kern |-> K("cb", 0, 8192, 95)] >>
+               [out |-> [v |-> 0, r |-> 8192, cb |-> TRUE, pf |-> TRUE], kern |-> K("cb", 0, 8192, 95)],
+               [out |-> [v |-> 0, r |-> 8192, cb |-> TRUE, pf |-> TRUE], kern |-> K("cb", 0, 8192, 96)] >>
 
 \* ---- direction A: one case per family with every plan and every de-aggregation
 RECURSIVE PlanJson(_)
 PlanJson(p) == IF IsLeaf(p) THEN p.t ELSE [i \in 1..Len(p.g) |-> PlanJson(p.g[i])]
 Proj(t) == IF IsErr(t) THEN [err |-> TRUE]
            ELSE [err |-> FALSE, ins |-> t.ins, outs |-> t.outs, kerns |-> [i \in 1..Len(t.kerns) |-> t.kerns[i].sid], off |-> t.off]
+\* per plan: does it exist, do its parts exist, and - for the route through the pool - which part the
+\* lacking pool lacks and what retrieve_transactions then reports (kernels by sid)
+PlanRec(p, i, cb) ==
+  LET parts == Parts(p, Txs)
+      pok == \A j \in 1..Len(parts) : ~IsErr(parts[j])
+      e == IF IsLeaf(p) THEN parts[1] ELSE Aggregate(parts)
+  IN  [ok |-> ~IsErr(e), parts_ok |-> pok,
+       pool |-> IF pok /\ Len(parts) >= 1 /\ ~IsErr(cb)
+                THEN [parts |-> [n \in 1..Len(parts) |-> Sids(parts[n].kerns)]]
+                ELSE [none |-> TRUE]]
 Case ==
   LET n == Len(fam)
       ps == SetToSeq(Plans(n))
       ag == Aggregable(Txs)
       hot == SetToSeq({x \in Touched(Txs) : NIn(Txs, x) + NOut(Txs, x) >= 2})
       subsets == IF Independent(Txs) /\ n >= 2 THEN SetToSeq({S \in SUBSET (1..n) : S # {} /\ S # 1..n}) ELSE <<>>
-      b == BlockOf(Txs, Rewards[lib], PrevOffset)
+      prevs == SetToSortSeq(PrevOffsets, LT)
+      b0 == BlockOf(Txs, Rewards[lib], Prev0)
+      recs == [i \in 1..Len(ps) |-> PlanRec(ps[i], i, IF ag THEN Compact(b0) ELSE Err)]
   IN  [lib |-> lib, fam |-> fam, txs |-> Txs, conflict_free |-> ConflictFree(Txs), independent |-> Independent(Txs),
        aggregable |-> ag, nondegenerate |-> NonDegenerate(Txs), proof_variants |-> ProofVariants(Txs),
+       cancel |-> SetToSeq(CancelForms(Txs)),
        shapes |-> SetToSeq(Shapes(Txs)),
        hot |-> [i \in 1..Len(hot) |-> [c |-> hot[i], o |-> NOut(Txs, hot[i]), i |-> NIn(Txs, hot[i]),
                                       shape |-> ShapeOf(NOut(Txs, hot[i]), NIn(Txs, hot[i]))]],
        plans |-> [i \in 1..Len(ps) |-> PlanJson(ps[i])],
        \* every plan is refused or yields `expect` (OrderGroupingIndependent)
-       plan_ok |-> [i \in 1..Len(ps) |-> ~IsErr(Eval(ps[i], Txs))],
-       parts_ok |-> [i \in 1..Len(ps) |-> PartsOk(ps[i], Txs)],
+       plan_ok |-> [i \in 1..Len(ps) |-> recs[i].ok],
+       parts_ok |-> [i \in 1..Len(ps) |-> recs[i].parts_ok],
        expect |-> Proj(All),
        deaggs |-> [i \in 1..Len(subsets) |->
                      [sub |-> SetToSortSeq(subsets[i], LT),
                       expect |-> Proj(Aggregate(Sub(Txs, (1..n) \ subsets[i])))]],
-       block |-> IF ag THEN [cb_out |-> b.body.outs[Len(b.body.outs)], cb_kern |-> Rewards[lib].kern,
-                             prev |-> PrevOffset, total |-> b.total, height |-> BlockHeight,
-                             expect |-> Proj(b.body)]
-                 ELSE [none |-> TRUE]]
+       \* one block per previous offset (the first one, on top of the largest, is the one hydrated through the pool)
+       bystanders |-> Bystanders,
+       via_pool |-> [i \in 1..Len(ps) |-> recs[i].pool],
+       blocks |-> IF ag THEN [k \in 1..Len(prevs) |->
+                                LET prev == prevs[Len(prevs) + 1 - k]
+                                    b == BlockOf(Txs, Rewards[lib], prev)
+                                IN  [cb_out |-> b.body.outs[Len(b.body.outs)], cb_kern |-> Rewards[lib].kern,
+                                     prev |-> prev, total |-> b.total, height |-> BlockHeight,
+                                     expect |-> Proj(b.body)]]
+                  ELSE <<>>]
 NoPlans == phase # "plan"
+NoPlanChoices(n) == {}
 Emit == AtFamily => PrintT(<<"AGGCASE", ToJson(Case)>>)
 ===========================================================================
